@@ -47,6 +47,17 @@ def remove_scratch(path=None):
     import shutil
 
     shutil.rmtree(path or top_scratch(), ignore_errors=True)
+    if path is None:
+        # scratch of fresh-interpreter runs whose starter was killed before it could clean up (name = pid + counter)
+        import glob
+
+        for d in glob.glob("/dev/shm/wsverif-fresh-*"):
+            try:
+                pid = int(os.path.basename(d)[len("wsverif-fresh-"):][:7])
+            except ValueError:
+                continue
+            if not os.path.exists("/proc/%d" % pid):
+                shutil.rmtree(d, ignore_errors=True)
 
 
 def _limit_memory():
